@@ -2,8 +2,7 @@
 //! Requests (floats as 16 hex digits, integers decimal):
 //!   `pdf   <dist> <params> n x1 … xn`  -> `= y1 … yn`    (continuous)
 //!   `lnpdf <dist> <params> n x1 … xn`  -> `= y1 … yn`
-//!   `cdf   normal mu sigma n x1 … xn`  -> `= y1 … yn`    (`! diverged` if an erf argument would be NaN:
-//!                                                          `erf(NaN)` recurses until the stack overflows)
+//!   `cdf   normal mu sigma n x1 … xn`  -> `= y1 … yn`    (a NaN erf argument gives `nan` since F56)
 //!   `pmf   <dist> <params> n k1 … kn`  -> `= y1 … yn`    (discrete)
 //!   `mean <dist> <params>` | `var <dist> <params>`       -> `= y`
 //!   `mvn_pdf k mean[k] cov[k*k] m xs[m*k]` | `mvn_lnpdf …` -> `= y1 … ym`
@@ -302,11 +301,6 @@ fn step(_: &mut (), t: &mut Toks) -> R<String> {
             };
             let mut ys = Vec::with_capacity(xs.len());
             for x in xs {
-                // the argument `Normal::cdf` hands to `erf`; erf(NaN) never returns
-                let z = (x - mu) / (sigma * 2_f64.sqrt());
-                if z.is_nan() {
-                    return Ok("! diverged".to_string());
-                }
                 ys.push(o.cdf(x));
             }
             Ok(ok(show_fs(&ys)))
